@@ -465,6 +465,10 @@ theorem body_mono {rec rec' : Rec} (h : RecLe rec rec') (cx : Ctx) {k k' : Nat} 
   | enable c => simp only [body] at hb ⊢; exact h _ _ _ _ _ _ hb
   | disable c => simp only [body] at hb ⊢; exact h _ _ _ _ _ _ hb
   | action fam c => simp only [body] at hb ⊢; exact h _ _ _ _ _ _ hb
+  | state d c =>
+    simp only [body, Option.map_eq_some_iff] at hb ⊢
+    obtain ⟨r0, h0, rfl⟩ := hb
+    exact ⟨r0, h _ _ _ _ _ _ h0, rfl⟩
 
 /-- The match.hpp protocol around a body is monotone as well. -/
 theorem nodeCore_mono {rec rec' : Rec} (h : RecLe rec rec') (cx : Ctx) {k k' : Nat} (hk : k ≤ k')
@@ -519,6 +523,12 @@ theorem nodeCall_mono {rec rec' : Rec} (h : RecLe rec rec') (cx : Ctx) {k k' : N
     · exact nodeCore_mono h cx hk _ _ _ _ _ _ _ h0
     · exact limitDepthCall_mono (fun st r hc => nodeCore_mono h cx hk _ _ _ _ _ _ _ hc) cx _ _ _ h0
     · exact limitBytesCall_mono (fun st r hc => nodeCore_mono h cx hk _ _ _ _ _ _ _ hc) cx _ _ _ h0
+    · simp only [Option.map_eq_some_iff] at h0 ⊢
+      obtain ⟨r1, h1, rfl⟩ := h0
+      exact ⟨r1, nodeCore_mono h cx hk _ _ _ _ _ _ _ h1, rfl⟩
+    · simp only [Option.map_eq_some_iff] at h0 ⊢
+      obtain ⟨r1, h1, rfl⟩ := h0
+      exact ⟨r1, h _ _ _ _ _ _ h1, rfl⟩
 
 theorem run_step (cx : Ctx) : ∀ n, RecLe (run cx n) (run cx (n + 1)) := by
   intro n
